@@ -31,8 +31,8 @@ func checkC07(c *Check) {
 	ruleReleaseAfterUse(c, p, "R07.6")
 	rfns := readerSideFuncs(p)
 	ruleErrorsNotAbsorbed(c, p, "R07.7", rfns, errAbsorbExempt)
-	ruleWindowRetention(c, p, "R07.8")
-	c.RuleDoc["R07.8"] = "the rolling dictionary is trimmed to the window before each append (its length is bounded by window + block size)"
+	ruleWindowNumeric(c, p, "", "R07.8")
+	c.RuleDoc["R07.8"] = "the rolling dictionary does not grow with the stream: after each update its length is bounded by a constant of the trim rule or equals the last block (bounds prover on Reader.read with the field tracked as a slice)"
 }
 
 // readerSideFuncs: the functions of the reading path whose error results decide
@@ -340,9 +340,43 @@ func ruleGetTotal(c *Check, p *Program, rule string) {
 					if a.Kind == "call" && strings.HasSuffix(a.Name, "IsValid") && a.Val {
 						ok = true
 					}
+					// a validator helper: err == nil, where the helper returns nil only under IsValid
+					if a.Kind == "errnil" && a.Val {
+						if call, isC := a.V.(*ssa.Call); isC {
+							if f := staticCallee(call); inModule(f) && nilOnlyUnder(f, "IsValid") {
+								ok = true
+							}
+						}
+					}
 				}
 				c.Cond(ok, rule, fmt.Sprintf("BlockSizeOption#validated#%d", n), p.InstrPos(ci), "BlockSizeOption stores a block-size code only after lz4block.IsValid accepted the size", "guarded by IsValid(size)", "BlockSizeIndexSet is not guarded by IsValid: an undefined size would make Get panic later")
 			}
 		}
 	}
+}
+
+// nilOnlyUnder: every return of a nil error in f lies under the true edge of a
+// call whose callee name ends in pred (f is a validator built on pred).
+func nilOnlyUnder(f *ssa.Function, pred string) bool {
+	found, ok := false, true
+	allInstrs(f, func(in ssa.Instruction) {
+		r, isR := in.(*ssa.Return)
+		if !isR || len(r.Results) != 1 || !isErrorType(r.Results[0].Type()) {
+			return
+		}
+		if !mayBeNilErr(r.Results[0], r.Block()) {
+			return
+		}
+		found = true
+		guarded := false
+		for _, a := range atomsOfBlock(r.Block()) {
+			if a.Kind == "call" && strings.HasSuffix(a.Name, pred) && a.Val {
+				guarded = true
+			}
+		}
+		if !guarded {
+			ok = false
+		}
+	})
+	return found && ok
 }
